@@ -111,6 +111,43 @@ func ruleApplyOrder() *Rule {
 				}
 				out = append(out, obs...)
 			}
+			hasInc := false
+			for _, o := range out {
+				if strings.HasPrefix(o.Construct, "store Raft.lastApplied") && o.Verdict == Discharged {
+					hasInc = true
+				}
+			}
+			if !hasInc {
+				out = append(out, Obligation{Rule: id, Construct: "lastApplied advances in (*Raft).applyLoop", Pos: p.Pos(root.Pos()), Verdict: Violated,
+					Detail: "the apply loop never advances lastApplied by one: the same committed entry is handed to the state machine again and again (an operation applied more than once)"})
+			} else {
+				out = append(out, Obligation{Rule: id, Construct: "lastApplied advances in (*Raft).applyLoop", Pos: p.Pos(root.Pos()), Verdict: Discharged, Detail: "incremented by one per applied entry"})
+			}
+			// APPLY-CONF: a committed configuration entry is applied through applyConfiguration(entry.Data)
+			ac := p.Func("(*Raft).applyConfiguration")
+			cob := Obligation{Rule: id, Construct: "APPLY-CONF configuration entries are applied in (*Raft).applyLoop", Pos: p.Pos(root.Pos())}
+			found := false
+			if ac != nil {
+				fr := NewRootFrame(root)
+				for _, b := range root.Blocks {
+					for _, in := range b.Instrs {
+						if c, ok := in.(*ssa.Call); ok && c.Common().StaticCallee() == ac {
+							found = true
+							cob.Pos = p.InstrPos(in)
+							if v := p.Canon(fr, c.Common().Args[1]).S; v == E+".Data" {
+								cob.Verdict, cob.Detail = Discharged, "applyConfiguration(entry.Data) of the entry being applied"
+							} else {
+								cob.Verdict, cob.Detail = Violated, "applyConfiguration is handed "+v+", must be the Data of the entry being applied"
+							}
+						}
+					}
+				}
+			}
+			if !found {
+				cob.Verdict = Violated
+				cob.Detail = "the apply loop never applies committed configuration entries: followers keep their old configuration forever (nodes disagree about membership and quorum sizes)"
+			}
+			out = append(out, cob)
 			out = append(out, futAnswer(p, id, root, E)...)
 			return dedupe(out)
 		},
@@ -612,12 +649,16 @@ func ruleFutResolve() *Rule {
 		Run: func(p *Program) []Obligation {
 			// which Raft fields of channel type are read by a respond call and written somewhere
 			respondReads := map[*types.Var]bool{}
+			successReads := map[*types.Var]bool{}
 			written := map[*types.Var]bool{}
 			p.eachInstr(func(fn *ssa.Function, in ssa.Instruction) {
 				if c, ok := isRespondCall(in); ok {
 					if u, ok := c.Args[0].(*ssa.UnOp); ok {
 						if fa, ok := u.X.(*ssa.FieldAddr); ok {
 							respondReads[fieldOf(fa.X.Type(), fa.Field)] = true
+							if k, ok := c.Args[2].(*ssa.Const); ok && k.Value == nil {
+								successReads[fieldOf(fa.X.Type(), fa.Field)] = true
+							}
 						}
 					}
 				}
@@ -730,8 +771,10 @@ func ruleFutResolve() *Rule {
 					continue // only node-level responder fields; a future's own channel is set by newFuture
 				}
 				ob := Obligation{Rule: id, Construct: "responder field " + fld.Name() + " has a writer", Pos: p.Pos(fld.Pos())}
-				if written[fld] {
-					ob.Verdict, ob.Detail = Discharged, "written somewhere and read by a respond call"
+				if written[fld] && !successReads[fld] {
+					ob.Verdict, ob.Detail = Violated, "futures registered in "+fld.Name()+" are only ever answered with an error: a request that succeeds can only time out or fail"
+				} else if written[fld] {
+					ob.Verdict, ob.Detail = Discharged, "written somewhere, answered by a respond call with a nil error (success) and by error responders"
 				} else {
 					ob.Verdict, ob.Detail = Violated, "field "+fld.Name()+" is answered by a respond call but never assigned a channel: the responder is dead code and the futures it was meant for never resolve"
 				}
